@@ -208,6 +208,87 @@ def guard_temp_cases(rng, _n):
     return cases
 
 
+def tuple_index_chain_cases(rng, _n):
+    """Chains of tuple indices in field paths (`c.0.1` reaches the macro as the float literal `0.1`): every (A, B) of a 2 x 2 and a
+    3 x 3 tuple of tuples, with the element's own value (passes) and with the mirrored / a sibling element's value (fails unless equal),
+    through named and wildcard structs, after a method call, and three levels deep."""
+    import tgen
+    cases = []
+    k = 0
+    decl = ("#[derive(Debug, Clone)] pub struct T4 { pub c: ((i32, i32), (i32, i32)), pub d: ((i32, i32, i32), (i32, i32, i32), (i32, i32, i32)), pub e: (((i32, i32), (i32, i32)), ((i32, i32), (i32, i32))) }")
+    cv = ((11, 22), (33, 44))
+    dv = ((1, 2, 3), (4, 5, 6), (7, 8, 9))
+    ev = (((1, 2), (3, 4)), ((5, 6), (7, 8)))
+    tup = lambda t: "(tuple %s)" % " ".join(tup(x) if isinstance(x, tuple) else "(int %d)" % x for x in t)
+    val = "T4 { c: %r, d: %r, e: %r }" % (cv, dv, ev)
+    sx = "(adt %s (names %s) (vals %s %s %s))" % (tgen.hexs("T4"), " ".join(tgen.hexs(n) for n in ("c", "d", "e")), tup(cv), tup(dv), tup(ev))
+    nums = sorted({x for t in cv for x in t} | {x - 1 for t in cv for x in t} | {x for t in dv for x in t} | {x for a in ev for b in a for x in b} | {0, 99})
+    meanings = "(meanings %s (m %s %s))" % (" ".join("(v %s (int %d))" % (tgen.hexs(str(x)), x) for x in nums), tgen.hexs("clone"), tgen.hexs("id"))
+    pats = []
+    for a in range(2):
+        for b in range(2):
+            for w in (cv[a][b], cv[b][a], cv[a][a], 99):
+                pats += ["T4 { c.%d.%d: %d, .. }" % (a, b, w), "_ { c.%d.%d: == %d, .. }" % (a, b, w)]
+            pats += ["T4 { c.%d.%d: > %d, c.%d.%d: %d, .. }" % (a, b, cv[a][b] - 1, b, a, cv[b][a]), "T4 { c.clone().%d.%d: %d, .. }" % (a, b, cv[a][b]), "T4 { c.clone().%d.%d: %d, .. }" % (a, b, cv[b][a])]
+    for a in range(3):
+        for b in range(3):
+            pats += ["T4 { d.%d.%d: %d, .. }" % (a, b, dv[a][b]), "T4 { d.%d.%d: %d, .. }" % (a, b, dv[b][a])]
+    for a in range(2):
+        for b in range(2):
+            for c_ in range(2):
+                pats += ["T4 { e.%d.%d.%d: %d, .. }" % (a, b, c_, ev[a][b][c_]), "T4 { e.%d.%d.%d: %d, .. }" % (a, b, c_, ev[c_][b][a])]
+    for pt in pats:
+        c = t3.Case()
+        c.id = k
+        k += 1
+        c.forms = {"tuple-index-chain": 1}
+        c.perturbed = True
+        c.meanings = meanings
+        t3.finish_case(c, decl, "T4", val, sx, pt)
+        cases.append(c)
+    # the same through an indexed element of a root tuple
+    for (pt, ok) in (("(0.0.1: 22, _)", True), ("(0.1.0: 22, _)", False), ("(0.1.0: 33, 1.0: 5)", True), ("(_, 1.1: 6)", True)):
+        c = t3.Case()
+        c.id = k
+        k += 1
+        c.forms = {"tuple-index-chain": 1}
+        c.perturbed = True
+        c.meanings = meanings.replace("(meanings ", "(meanings (v %s (int 5)) (v %s (int 6)) " % (tgen.hexs("5"), tgen.hexs("6")), 1)
+        t3.finish_case(c, "", "(((i32, i32), (i32, i32)), (i32, i32))", "(((11, 22), (33, 44)), (5, 6))", "(tuple %s (tuple (int 5) (int 6)))" % tup(cv), pt)
+        cases.append(c)
+    return cases
+
+
+def method_argument_cases(rng, _n):
+    """Method calls with several arguments in field paths: the arguments reach the call in the order written."""
+    import tgen
+    cases = []
+    k = 0
+    decl = ("#[derive(Debug)] pub struct Acc { pub bal: i32, pub title: String }\nimpl Acc { pub fn after(&self, add: i32, fee: i32) -> i32 { self.bal + add - fee } pub fn pick(&self, a: i32, b: i32, c: i32) -> i32 { a * 100 + b * 10 + c } "
+            "pub fn cut(&self, from: usize, to: usize) -> &str { &self.title[from..to] } pub fn one(&self, a: i32) -> i32 { a + 1 } }\n#[derive(Debug)] pub struct Hold { pub acc: Acc, pub pair: (Acc, i32) }")
+    val = 'Hold { acc: Acc { bal: 1000, title: "hello world".to_string() }, pair: (Acc { bal: 10, title: "ab".to_string() }, 0) }'
+    acc = lambda bal, t: "(adt %s (names %s %s) (vals (int %d) (str %s)))" % (tgen.hexs("Acc"), tgen.hexs("bal"), tgen.hexs("title"), bal, tgen.hexs(t))
+    sx = "(adt %s (names %s %s) (vals %s (tuple %s (int 0))))" % (tgen.hexs("Hold"), tgen.hexs("acc"), tgen.hexs("pair"), acc(1000, "hello world"), acc(10, "ab"))
+    # (pattern, method name -> what the call yields as written)
+    progs = [("Hold { acc.after(100, 5): 1095, .. }", {"after": "const:1095"}), ("Hold { acc.after(5, 100): 905, .. }", {"after": "const:905"}), ("Hold { acc.after(100, 5): 905, .. }", {"after": "const:1095"}),
+             ("Hold { acc.pick(1, 2, 3): 123, .. }", {"pick": "const:123"}), ("Hold { acc.pick(3, 2, 1): > 300, .. }", {"pick": "const:321"}), ("_ { acc.pick(1, 2, 3): 123, .. }", {"pick": "const:123"}),
+             ('Hold { acc.cut(0, 5): "hello", .. }', {"cut": "conststr:" + tgen.hexs("hello")}), ('Hold { acc.cut(6, 11): == "world", .. }', {"cut": "conststr:" + tgen.hexs("world")}),
+             ("Hold { acc.one(4): 5, acc.after(1, 2): 999, .. }", {"one": "const:5", "after": "const:999"}), ("Hold { pair: (0.after(5, 1): 14, _), .. }", {"after": "const:14"}),
+             ("Hold { pair.0.after(1, 5): 6, .. }", {"after": "const:6"}), ("Hold { acc.after(100, 5): 1095, acc.pick(9, 0, 9): 909, .. }", {"after": "const:1095", "pick": "const:909"})]
+    lits = {"1095": 1095, "905": 905, "123": 123, "300": 300, "5": 5, "999": 999, "14": 14, "6": 6, "909": 909}
+    for pt, meth in progs:
+        c = t3.Case()
+        c.id = k
+        k += 1
+        c.forms = {"method-arguments": 1}
+        c.perturbed = True
+        c.meanings = "(meanings %s (v %s (str %s)) (v %s (str %s)) %s)" % (" ".join("(v %s (int %d))" % (tgen.hexs(t), n) for t, n in lits.items()), tgen.hexs('"hello"'), tgen.hexs("hello"),
+                                                                         tgen.hexs('"world"'), tgen.hexs("world"), " ".join("(m %s %s)" % (tgen.hexs(n), tgen.hexs(b)) for n, b in meth.items()))
+        t3.finish_case(c, decl, "Hold", val, sx, pt)
+        cases.append(c)
+    return cases
+
+
 def set_after_failure_cases(rng, _n):
     """A set pattern evaluated when the report already holds entries (a failing sibling before it), and before further failing
     siblings: every independent mismatch is reported, whatever has been reported already."""
@@ -412,6 +493,8 @@ def check(ck, aspect, theorems, t2_parts=("body", "status")):
                                 ("map-wildcard-value", map_wild_cases, "map entries whose value pattern is `_`: the key is still required"),
                                 ("wildcard-struct-sibling", wildcard_shadow_cases, "a wildcard struct next to a sibling field of the same name"),
                                 ("guard-temporaries", guard_temp_cases, "field paths through guard-returning methods: each assertion releases its borrow before the next"),
+                                ("tuple-index-chains", tuple_index_chain_cases, "chains of tuple indices in field paths (`c.0.1` is one float literal token)"),
+                                ("method-arguments", method_argument_cases, "method calls with several arguments in field paths: arguments in the order written"),
                                 ("set-after-failure", set_after_failure_cases, "set patterns evaluated when the report already holds entries, and before further failing siblings"),
                                 ("invocation-context", invocation_context_cases, "the same assertion after other assertions, in expression position, as a match arm, in loops / closures, next to caller locals named like helpers"),
                                 ("eq-literal-text", eq_literal_text_cases, "expected expressions with blanks and `::` inside string literals"),
